@@ -19,6 +19,10 @@ func init() {
 			"Holds for every loss point and loss kind because call sites, not executions, are enumerated. NOT decided: promptness in wall-clock terms; nil-pointer panics inside a transport implementation after loss.",
 		Assumptions: []string{"a failing transport reports through its error result", "user callbacks/OnOpen functions are outside the library"},
 		Mutants: []Mutant{
+			{ID: "C06-telnet-conn-nil", Desc: "telnet Open resets its connection to nil after a failed negotiation", Rule: "C06/conn-never-nil",
+				Edits: []Edit{{File: "transport/telnet.go", Old: "\terr = t.handleControlChars(a)\n\tif err != nil {\n\t\treturn err\n\t}", New: "\terr = t.handleControlChars(a)\n\tif err != nil {\n\t\t_ = t.c.Close()\n\t\tt.c = nil\n\n\t\treturn err\n\t}"}}},
+			{ID: "C06-hello-read-retried-blindly", Desc: "the hello read is retried in a loop that never looks at its error", Rule: "C06/loop-error-examined",
+				Edits: []Edit{{File: "driver/netconf/capabilities.go", Old: "\t\tb, err := d.Channel.ReadUntilPrompt(ctx)\n", New: "\t\tvar b []byte\n\n\t\tvar err error\n\n\t\tfor len(b) == 0 && ctx.Err() == nil {\n\t\t\tb, err = d.Channel.ReadUntilPrompt(ctx)\n\t\t}\n"}}},
 			{ID: "C06-netconf-reader-gives-up", Desc: "NETCONF reader returns after handing one channel error over", Rule: "C06/netconf-forward",
 				Edits: []Edit{{File: "driver/netconf/read.go", Old: "\t\t\td.errs <- err\n\t\t}", New: "\t\t\tselect {\n\t\t\tcase d.errs <- err:\n\t\t\tcase <-d.done:\n\t\t\t}\n\n\t\t\treturn\n\t\t}"}}},
 			{ID: "C06-timeout-errors-swallowed", Desc: "Transport.read turns read errors that look like timeouts into empty reads (function with a deferred unlock)", Rule: "C06/propagate",
@@ -49,6 +53,10 @@ func init() {
 func runC06(c *Ctx, r *Report) {
 	importFoundation(c, r, "C06", "callbacks")
 	importFoundation(c, r, "C06", "read-loop")
+	r.Rule("C06/conn-never-nil", "a connection handle of interface type that a transport invokes without a nil test is never reset to nil (a nil store makes the next Close / Write / Read panic instead of failing)", 1)
+	checkConnNeverNil(c, r, "C06/conn-never-nil")
+	r.Rule("C06/loop-error-examined", "a connection operation repeated in a loop has its error examined before the loop calls it again", 8)
+	checkLoopErrorExamined(c, r, "C06/loop-error-examined")
 	r.Rule("C06/always-fetches-prompt", "AcquirePriv reports success only after it fetched the device's prompt (a lost connection cannot be reported as success)", 1)
 	checkAcquireAlwaysFetchesPrompt(c, r, "C06/always-fetches-prompt")
 	r.Rule("C06/error-classes", "each failure site named by the property wraps the sentinel the property names (timeout / auth / connection / privilege / NETCONF / operation / platform error)", 2)
